@@ -69,3 +69,15 @@ package redisemu
 //@ func parseArgsWithExpiration
 //@ trusted reads the parsed arguments and the clock; calls the default handler (nil for GETEX) for other arguments
 //@ modifies ghost.now
+
+// C13 / C18: BITCOUNT's range normalisation stays inside the value for every start/end/unit
+//@ func fnBitCount
+//@ prop C18
+//@ safetyprop C13
+//@ mode int
+//@ requires ctx != nil && ctx.dsc != nil && dscOK(ctx.dsc)
+//@ requires [C08,C16] unlocked: !held && lockMode(ctx.dsc)
+//@ requires !mutated && !bumped && !removedKey
+//@ modifies *
+//@ loop 1 invariant 0 <= count && count <= 64*ri1
+//@ ensures internal [C18] empty: valid == VALUE_EXISTS && len(strBytes) == 0 ==> output.data == respInt(0)
